@@ -25,6 +25,16 @@ func strBytes(v value) []Int {
 		}
 		return b
 	case SStr:
+		for _, x := range v.B {
+			if x.Ref != nil {
+				// a view of memory: its bytes are what the cells hold now
+				b := make([]Int, len(v.B))
+				for i, y := range v.B {
+					b[i] = y.deref()
+				}
+				return b
+			}
+		}
 		return v.B
 	}
 	panic(inconclusive{fmt.Sprintf("strBytes: %T", v)})
